@@ -35,6 +35,27 @@ NOT_APPLICABLE = {
 }
 
 MANIFEST_META = {
+    'C10': dict(
+        text='Proof of the authorization decision logic and call-site conditions on the real code: tile services '
+             '(TMS/WMTS/KML authorize_tile_layer) return normally only without a callback, for \'full\', or for '
+             '\'partial\' with the layer\'s tile/featureinfo permission True, everything else raises before any render; '
+             'TileLayer.render/get_info answer empty without touching the tile manager when the limit neither contains nor '
+             'intersects the FULL tile rectangle, and mask the image with exactly that coverage and rectangle when it '
+             'crosses; LayerMerger.merge never skips a request-wide limited_to (shortcut guard) and masks the composed '
+             'result with it.',
+        note='pixel clipping (image.mask, shapely, PIL) and reprojection of the limiting geometry are outside; WMS '
+             'authorized_layers / filter_actual_layers / featureinfo gate and LimitedLayer are not yet under contract; '
+             'opaque-callee assumption; the callback result is an opaque mapping'),
+    'C14': dict(
+        text='Proof that the shortcut guards imply "shortcut = full composition" at the level of operation selection: the '
+             'single-layer fast path of LayerMerger.merge is taken only for one layer of the requested size without clip, '
+             'without request-wide coverage, opaque or transparent output, and WITHOUT an opacity < 1; the loop composites '
+             'each layer once, bottom to top; WMSSource.is_opaque implies no transparency, full opacity, inside coverage and '
+             'resolution range; _is_compatible allows combining upstream requests only without opacities and with equal SRS, '
+             'formats, colour key, coverage and forwarded dimensions.',
+        note='pixel arithmetic (PIL alpha_composite/blend/paste) is an algebra of opaque symbols; WMSServer.map pruning loop '
+             'and combined_layers ordering not yet under contract; defects S6 (opacity 0 counted opaque) and S7 (single '
+             'layer ignores opacity) were found by this check and repaired in /repo (089f0af, 82bd189)'),
     'C17': dict(
         text='Proof of call-site preconditions on the real WMSSource code (all paths, all inputs): at every '
              'client.retrieve(q, fmt) the format is in supported_formats and the SRS in supported_srs whenever those lists '
